@@ -232,24 +232,63 @@ class SimBytesIO(io.BytesIO):
         return io.BytesIO.tell(self)
 
 
+DROP_EVENTS = {'drops': 0, 'inside_definite': 0}
+
+
+def _definite_frame_active(frame):
+    """Is a definite-length decoding frame of pyasn1 active up the stack?  Those are
+    the frames that keep absolute stream positions across a mark (F6)."""
+    f = frame
+    n = 0
+    while f is not None and n < 200:
+        code = f.f_code
+        name = code.co_name
+        if name == 'valueDecoder' and 'decoder' in code.co_filename:
+            return True
+        if name == '__call__' and 'decoder' in code.co_filename:
+            loc = f.f_locals
+            if 'original_position' in loc and loc.get('length') not in (None, -1):
+                return True
+        f = f.f_back
+        n += 1
+    return False
+
+
 class IoProxy(object):
     """Stands in for the ``io`` module inside pyasn1.codec.streaming so that the
-    wrapper's drop threshold (io.DEFAULT_BUFFER_SIZE) becomes a per-run knob."""
+    wrapper's drop threshold (io.DEFAULT_BUFFER_SIZE) becomes a per-run knob, and so
+    that a cache drop (the wrapper building its replacement BytesIO inside the
+    markedPosition setter) can be observed together with the decoder frames that are
+    active at that moment."""
 
     def __init__(self, real, threshold):
         self.__dict__['_real'] = real
         self.__dict__['DEFAULT_BUFFER_SIZE'] = threshold
 
     def __getattr__(self, name):
+        if name == 'BytesIO':
+            import sys
+            caller = sys._getframe(1)
+            if caller.f_code.co_name == 'markedPosition':
+                DROP_EVENTS['drops'] += 1
+                if _definite_frame_active(caller):
+                    DROP_EVENTS['inside_definite'] += 1
         return getattr(self.__dict__['_real'], name)
 
 
+def reset_drop_events():
+    DROP_EVENTS['drops'] = 0
+    DROP_EVENTS['inside_definite'] = 0
+
+
 def set_drop_threshold(threshold):
-    """Install (or remove, with None) the knob.  Returns the previous object."""
+    """Install the knob (None = the shipped 8192, still observed).  Returns the previous object."""
     from pyasn1.codec import streaming
     prev = streaming.io
     real = prev.__dict__['_real'] if isinstance(prev, IoProxy) else prev
-    streaming.io = real if threshold is None else IoProxy(real, threshold)
+    streaming.io = IoProxy(real, 8192 if threshold is None else threshold)
+    DROP_EVENTS['drops'] = 0
+    DROP_EVENTS['inside_definite'] = 0
     return prev
 
 
